@@ -171,7 +171,7 @@ fn mk_ictx() -> InterpreterContext {
         c.label_map.insert(n.to_string(), Label::new(LabelType::DATA, 0, o as usize));
     }
     c.label_map.insert("tgt".to_string(), Label::new(LabelType::CODE, 0, 3));
-    c.fn_map.insert("fnp".to_string(), 5);
+    c.fn_map.insert("fnp".to_string(), 5 as _);
     c
 }
 
